@@ -6,6 +6,7 @@ import (
 	"os"
 	"strconv"
 
+	"verif/harness/asmtrace"
 	"verif/harness/fw"
 	_ "verif/harness/prop"
 )
@@ -24,6 +25,13 @@ func main() {
 		for _, id := range fw.IDs() {
 			fmt.Println(id)
 		}
+	case "asmprobe":
+		style, _ := strconv.Atoi(os.Args[2])
+		seed, _ := strconv.ParseInt(os.Args[3], 10, 64)
+		asmtrace.Probe(style, seed)
+	case "asmtrace":
+		exe, _ := os.Executable()
+		os.Exit(asmtrace.Main(exe))
 	case "run":
 		if len(os.Args) < 4 {
 			usage()
